@@ -100,7 +100,7 @@ pub fn row(a: &dyn Array, i: usize) -> String {
         Dictionary(_, _) => {
             let d = a.as_any_dictionary();
             let keys = d.keys();
-            if keys.is_null(i) {
+            if keys.is_null(i) || d.values().is_empty() {
                 return NULL.to_string();
             }
             let k = d.normalized_keys()[i];
